@@ -52,6 +52,24 @@ CLAIMS: dict[str, tuple[str, str, str, str]] = {
         'two accepted in-body guards (EditUser.post, LoginPage.post) are confirmed by reading and '
         're-verified structurally on every run.',
         'DESIGN.md section 4, C15'),
+    'C16': (
+        'interprocedural exception-escape analysis over the resolved call graph + path/structure rules',
+        'From every routed (handler, verb) entry point: each explicit raise (and each assertion on '
+        'a request-controlled value) that can propagate out along resolved call edges without '
+        'meeting an except clause that covers its type is reported, unless a triage row names the '
+        'invariant that makes it unreachable; option-parser/consumer agreement (every value the '
+        '`drm` and `time` parsers accept is handled downstream) is decided on every run and the '
+        'corresponding rows are only honoured while it holds; parser calls on uploaded or fetched '
+        'bytes must sit under a handler; counted while-loops on request paths need a provably '
+        'positive step; attributes read from library modules and annotated builtin containers must '
+        'exist; int(x, base) on a known int is a definite TypeError; the synthetic-error selection '
+        'is by equality, counted only on the addressed branch, and no other literal 5xx exists.',
+        'Decides explicit error signals, loop progress and definite crashes on resolved edges; not '
+        'the absence of implicit Python exceptions (KeyError, AttributeError on None ...), not '
+        'response-time bounds. Signals raised inside the MP4 parser are decided at the parser call '
+        'sites (stored, indexed media is trusted to parse again). Triage rows were confirmed by '
+        'reading the callers.',
+        'DESIGN.md section 4, C16'),
     'C17': (
         'ORM schema extraction + typed deletion-site enumeration + delete-rule matching',
         'The foreign keys, relationships (with cascades), the association table and the unique '
